@@ -418,11 +418,70 @@ def extra_evidence(ctx, runs):
                                   "fixpoint_rounds": an.rounds, "no_consumption_call_edges": sum(len(v) for v in an.edges.values())}}
 
 
+SKIPPING_QUERIES = ("at", "at_set", "at_eof", "at_default_recovery_set", "kind", "peek", "at_ahead", "at_eof_ahead",
+                    "expect", "expect_with_recovery_set", "expect_with_recovery_set_no_default", "expect_with_no_skip",
+                    "error", "error_with_no_skip", "error_with_skip", "error_with_recovery_set", "error_with_recovery_set_no_default")
+
+
+def r23f(ctx, run):
+    """typestate: Parser::bump consumes the token under the raw cursor without skipping trivia, and every query (at, at_set, peek, kind,
+    expect*, error*) skips trivia first.  So on every path a bump must come after a query with no other bump (or call into the grammar)
+    in between - otherwise whitespace between two tokens makes the second bump add a trivia token, the sink (which adds trivia on its own)
+    falls out of step and indexes past the token list.  Unless bump itself skips trivia first, which discharges the obligation at the root."""
+    pf = ctx.syn.fn("Parser::bump", "parser/src/parser.rs")
+    root = any(n.get("k") == "mcall" and n["m"] == "skip_trivia" and canon(n["r"]) == "self" for n in walk(pf.body))
+    stmts = pf.body["s"]
+    first_adv = next((i for i, st in enumerate(stmts) if any(x.get("k") == "bin" and x.get("op") == "+=" and canon(x["l"]).endswith("token_idx") for x in walk(st))), None)
+    first_skip = next((i for i, st in enumerate(stmts) if any(x.get("k") == "mcall" and x["m"] == "skip_trivia" for x in walk(st))), None)
+    first_event = next((i for i, st in enumerate(stmts) if "AddToken" in canon(st)), None)
+    if root and first_skip is not None and first_adv is not None and first_event is not None and first_skip < first_adv and first_skip < first_event:
+        run.ok(pf.site(), "Parser::bump skips trivia before it adds the token: a bump can never add a trivia token")
+        return
+    n_fns = 0
+    for f in ctx.syn.fns:
+        if f.in_test or f.body is None or "parser/src/grammar" not in f.file:
+            continue
+        names = f.param_names()
+        if not names or names[0] != "p":
+            continue
+        n_fns += 1
+        problems = []
+
+        def step(node, st):
+            k = node.get("k")
+            if k == "mcall" and canon(node["r"]) == "p":
+                if node["m"] == "bump":
+                    if st != "fresh":
+                        problems.append(node["ln"])
+                    return "stale"
+                if node["m"] in SKIPPING_QUERIES:
+                    return "fresh"
+                return st
+            if k == "macro" and node["name"].rsplit("::", 1)[-1] in ("assert", "debug_assert") and "p . at" in node.get("tokens", "").replace("p.at", "p . at"):
+                return "fresh"
+            if k == "call":
+                # a call that is handed the parser may consume tokens: the cursor is wherever it left it
+                if any(canon(a) == "p" for a in node["a"]):
+                    return "stale"
+            return st
+        paths.run(f.body, "stale", step)
+        if problems:
+            run.finding("parser::grammar::" + f.qual, "bump-without-skip", f.file, min(problems),
+                        "%s bumps at line(s) %s without a trivia-skipping query (at/at_set/peek/expect...) since the previous bump or grammar call: with whitespace or a comment "
+                        "between the two tokens the second bump adds a trivia token, the sink falls out of step and the compiler panics (index out of bounds in Tokens)"
+                        % (f.qual, sorted(set(problems))))
+        else:
+            run.ok(f.site(), "%s: every bump follows a trivia-skipping query" % f.qual)
+    if n_fns < 20:
+        raise LookupError("grammar functions taking the parser: %d" % n_fns)
+
+
 def rules(ctx):
     return [
         Rule("R23.a", "every parser loop consumes a token or exits, for every token kind and every reachable recovery-set context; index loops are monotone; parser and sink agree on the trivia kinds", 30, r23a),
         Rule("R23.b", "no cycle of grammar functions entered without consuming a token (left recursion)", 10, r23b),
         Rule("R23.c", "only bump consumes; look-ahead restores the cursor on every exit; entry points run to EOF; the sink adds every token once", 16, r23c),
         Rule("R23.d", "the two unsafe blocks are guarded by their asserts and by the one-byte Event layout", 6, r23d),
+        Rule("R23.f", "every bump follows a trivia-skipping query (or bump skips trivia itself): parser and sink stay in step whatever whitespace the input has", 1, r23f),
         Rule("R23.e", "syntax-error locations are token ranges", 4, r23e),
     ]
